@@ -341,6 +341,14 @@ theorem C38_zero_compactors_stuck :
       ∀ l, l.isPoll = false → l.isEnv = false → step cfgNoComp s l = none :=
   ⟨stallStuck, run_reach _ _ _ _ Reach.init stallTrace_run, rfl, by decide, stallStuck_dead⟩
 
+/-- **Finding F38c (witness).** A commit refused after `orc.Stop()` leaves its timestamp
+    unmarked, so the `readTs` that `WriteBatch.commit` issues right afterwards blocks for ever;
+    the same commit refused *before* the stop is marked done and `readTs` returns. -/
+theorem C38_F38c_witness :
+    (({} : Orc).run [.stop, .commitRefused, .readTs]).2 = ["ok", "err-blocked", "blocks-forever"] ∧
+    (({} : Orc).run [.commitRefused, .stop, .readTs]).2 = ["err-blocked", "ok", "returns"] := by
+  decide
+
 -- non-vacuity: a reachable state with a stalled writer, a stalled flusher and a Close in flight,
 -- where the theorem provides a compaction step
 example : ∃ s, run cfgSmall State.init
